@@ -4,6 +4,7 @@ open Sq Sq.Proto
 
 def handle (line : String) : String :=
   if line.startsWith "EVAL " then evalCmd (line.drop 5).toString else
+  if line.startsWith "SESSION " then sessionCmd (line.drop 8).toString else
   match line.splitOn " " with
   | ["LEX", h] => match unhex h with
     | some s => lexCmd s
